@@ -234,6 +234,9 @@ pub struct Src {
     pub flags: u8,
     pub sync: bool,
     pub time: u64,
+    /// the measurement is written without a time (`time: None`): what a time-bearing variation then reports as its time is
+    /// not compared, everything else is
+    pub no_time: bool,
 }
 
 fn analog_value(r: &mut Rng) -> f64 {
@@ -300,6 +303,7 @@ pub fn random_src(r: &mut Rng, t: usize, index: u16) -> Src {
         },
         sync: r.bool(),
         time: r.u64() & MAX48,
+        no_time: false,
     }
 }
 
@@ -312,6 +316,25 @@ pub fn update(sim: &OutSim, s: &Src) {
     };
     let opt = UpdateOptions::new(true, EventMode::Force);
     let i = s.index;
+    if s.no_time {
+        let d = [
+            DoubleBit::Intermediate,
+            DoubleBit::DeterminedOff,
+            DoubleBit::DeterminedOn,
+            DoubleBit::Indeterminate,
+        ][s.int as usize & 3];
+        sim.db(|db| match s.t {
+            0 => db.update(i, &BinaryInput { value: s.int != 0, flags: f, time: None }, opt),
+            1 => db.update(i, &DoubleBitBinaryInput { value: d, flags: f, time: None }, opt),
+            2 => db.update(i, &BinaryOutputStatus { value: s.int != 0, flags: f, time: None }, opt),
+            3 => db.update(i, &Counter { value: s.int, flags: f, time: None }, opt),
+            4 => db.update(i, &FrozenCounter { value: s.int, flags: f, time: None }, opt),
+            5 => db.update(i, &AnalogInput { value: s.real, flags: f, time: None }, opt),
+            6 => db.update(i, &AnalogOutputStatus { value: s.real, flags: f, time: None }, opt),
+            _ => db.update(i, &OctetString::new(&s.bytes).unwrap(), opt),
+        });
+        return;
+    }
     sim.db(|db| match s.t {
         0 => db.update(i, &BinaryInput::new(s.int != 0, f, tm), opt),
         1 => db.update(
@@ -560,6 +583,7 @@ fn judge(rec: &Rec, s: &Src) -> Result<(), (String, String)> {
                 ),
             )
         }
+        (Tk::Abs, Some(_)) | (Tk::Rel, Some(_)) if s.no_time => {}
         (Tk::Abs, Some((_, ms))) => {
             if ms != s.time {
                 return e(
@@ -714,7 +738,11 @@ async fn scenario(a: &ShardArgs, idx: u64) {
                 flags,
                 sync,
                 time,
+                no_time: r.chance(1, 8),
             };
+            if s.no_time {
+                out::count("measurements_written_without_a_time", 1);
+            }
             // sometimes only flags and time change (Database::update_flags): the value stays what it was
             let s = match latest.get(&(t, i)) {
                 Some(prev) if t < 7 && r.chance(1, 6) => {
@@ -722,6 +750,7 @@ async fn scenario(a: &ShardArgs, idx: u64) {
                         flags: s.flags,
                         sync: s.sync,
                         time: s.time,
+                        no_time: false,
                         ..prev.clone()
                     };
                     let ft = [
